@@ -136,9 +136,11 @@ type (
 		resetStreamsDuringTaggingJob   bitmask.LongBitmask
 		addedStreamsDuringTaggingJob   bitmask.LongBitmask
 
-		streamsToConvert         map[string]*bitmask.LongBitmask
-		pcapProcessorWebhookUrls []string
-		pcapOverIPEndpoints      []*pcapOverIPEndpoint
+		streamsToConvert map[string]*bitmask.LongBitmask
+		// streams that changed while a converter job was running, the job might still cache output of their old data
+		invalidatedStreamsDuringConverterJob bitmask.LongBitmask
+		pcapProcessorWebhookUrls             []string
+		pcapOverIPEndpoints                  []*pcapOverIPEndpoint
 
 		pcapOverIPPackets chan pcapOverIPPacket
 		pcapOverIPCmd     chan pcapOverIPCmd
@@ -1602,6 +1604,12 @@ func (mgr *Manager) convertStreamJob(allConverters []*converters.CachedConverter
 	defer verifHook("conv", 1)
 	mgr.jobs <- func() {
 		mgr.converterJobRunning = false
+		if !mgr.invalidatedStreamsDuringConverterJob.IsZero() {
+			// drop what this job converted from the old data of streams that changed in the meantime
+			invalidated := mgr.invalidatedStreamsDuringConverterJob
+			mgr.invalidatedStreamsDuringConverterJob = bitmask.LongBitmask{}
+			mgr.invalidateConverters(&invalidated)
+		}
 
 		for i, converter := range allConverters {
 			// The converter was removed while we were running.
@@ -1638,6 +1646,9 @@ func (mgr *Manager) convertStreamJob(allConverters []*converters.CachedConverter
 }
 
 func (mgr *Manager) invalidateConverters(updatedStreams *bitmask.LongBitmask) {
+	if mgr.converterJobRunning {
+		mgr.invalidatedStreamsDuringConverterJob.Or(*updatedStreams)
+	}
 	for _, converter := range mgr.converters {
 		invalidatedStreams := converter.InvalidateChangedStreams(updatedStreams)
 		mgr.streamsToConvert[converter.Name()].Or(invalidatedStreams)
